@@ -1,6 +1,9 @@
 package docx
 
-import "encoding/xml"
+import (
+	"encoding/xml"
+	"strings"
+)
 
 // XML namespaces used in DOCX files
 const (
@@ -40,6 +43,7 @@ type paragraphXML struct {
 	Runs          []runXML          `xml:"r"`
 	Hyperlinks    []hyperlinkXML    `xml:"hyperlink"`
 	BookmarkStart []bookmarkXML     `xml:"bookmarkStart"`
+	InnerXML      string            `xml:",innerxml"` // Raw content, used to read inline content in document order
 }
 
 // paragraphPropsXML represents paragraph properties (<w:pPr>).
@@ -361,4 +365,70 @@ type footerXML struct {
 	XMLName    xml.Name       `xml:"ftr"`
 	Paragraphs []paragraphXML `xml:"p"`
 	Tables     []tableXML     `xml:"tbl"`
+}
+
+// paragraphInlineText returns the text of a paragraph in document order: the
+// text, tabs, breaks and symbols of every run, whether the run is a direct
+// child of the paragraph or sits inside a hyperlink, a tracked insertion, a
+// smart tag or an inline content control. Deleted text, field codes, and the
+// content of drawings and text boxes anchored in the paragraph are not part
+// of its text.
+func paragraphInlineText(inner string) string {
+	decoder := xml.NewDecoder(strings.NewReader(inner))
+	var sb strings.Builder
+	skip := 0      // depth inside an element whose content is not paragraph text
+	inText := false // inside <w:t>
+
+	for {
+		token, err := decoder.Token()
+		if err != nil {
+			break
+		}
+		switch t := token.(type) {
+		case xml.StartElement:
+			if skip > 0 {
+				skip++
+				continue
+			}
+			switch t.Name.Local {
+			case "pPr", "rPr", "del", "moveFrom", "delText", "instrText", "drawing", "pict", "object", "Choice", "txbxContent":
+				skip = 1
+			case "t":
+				inText = true
+			case "tab":
+				sb.WriteString("\t")
+			case "br":
+				breakType := ""
+				for _, attr := range t.Attr {
+					if attr.Name.Local == "type" {
+						breakType = attr.Value
+					}
+				}
+				if breakType == "page" {
+					sb.WriteString("\n\n")
+				} else {
+					sb.WriteString("\n")
+				}
+			case "cr":
+				sb.WriteString("\n")
+			case "sym":
+				for _, attr := range t.Attr {
+					if attr.Name.Local == "char" {
+						sb.WriteString(parseSymbolChar(attr.Value))
+					}
+				}
+			}
+		case xml.EndElement:
+			if skip > 0 {
+				skip--
+			} else if t.Name.Local == "t" {
+				inText = false
+			}
+		case xml.CharData:
+			if skip == 0 && inText {
+				sb.Write(t)
+			}
+		}
+	}
+	return sb.String()
 }
